@@ -162,13 +162,24 @@ class Src:
     def line_of(self, off):
         return self.text.count("\n", 0, off) + 1
 
-    def next_open_brace(self, i, stop=None):
-        """index of the first `{` at paren/bracket depth 0 at or after token i"""
+    def next_open_brace(self, i, stop=None, angles=False):
+        """index of the first `{` at paren/bracket depth 0 at or after token i.  angles=True (fn signatures): braces
+        inside generic argument lists (`Vec<u8, { N * 2 }>`) are skipped"""
         depth = 0
+        adepth = 0
         stop = len(self.toks) if stop is None else stop
-        for j in range(i, stop):
+        j = i
+        while j < stop:
             t = self.toks[j]
             if t.kind != "punct":
+                j += 1
+                continue
+            if angles and t.text == "<":
+                adepth += 1
+            elif angles and t.text == ">" and self.toks[j - 1].text not in ("-", "="):
+                adepth = max(adepth - 1, 0)
+            elif angles and adepth > 0 and t.text == "{":
+                j = match_close(self.toks, j) + 1
                 continue
             if t.text in "([":
                 depth += 1
@@ -178,6 +189,7 @@ class Src:
                 return j
             elif t.text == ";" and depth == 0:
                 return None
+            j += 1
         return None
 
     def top_level_items(self, lo=0, hi=None):
@@ -239,7 +251,7 @@ class Src:
         for i in self.top_level_items(lo, hi):
             t = self.toks[i]
             if t.kind == "ident" and t.text == "fn" and self.toks[i + 1].text == name:
-                ob = self.next_open_brace(i + 2, hi)
+                ob = self.next_open_brace(i + 2, hi, angles=True)
                 if ob is None:
                     continue  # trait method declaration without body
                 # walk back over qualifiers
